@@ -1,10 +1,10 @@
 META = {
- 'manifest': {'text': 'Bounded symbolic model checking of one update(key, value) of the real update_tuple_sketch<uint32> with a non-commutative policy from table states of concrete occupancy (symbolic keys, summaries, theta, seed, hash): the retained key set follows the Theta rule, the updated key gets policy(previous summary, value) (create() for a new key), every other key keeps its summary through insert / resize / rebuild moves; compact() and filter(pred) expose exactly the same / the satisfying (key, summary) pairs.',
-              'note': 'hash = arbitrary function; tables of 2..8 slots via the private constructor; tuple union / intersection / a-not-b (shared theta_*_base code is decided for plain hashes in C02), array-of-doubles and user types with move semantics are outside the claim'},
- 'functions_encoded': ['update_tuple_sketch::update(uint64_t, U) / update(const void*, size_t, U), compact, filter, begin/end', 'theta_update_sketch_base<pair<uint64,uint32>, pair_extract_key>::find/insert/resize/rebuild/consolidate_non_empty', 'std::nth_element over pairs', 'compact_tuple_sketch(const Base&, bool) + std::sort'],
- 'bounds': 'lg_nom 1..2 (tables 2, 4, 8 slots), every occupancy mask for <= 4 slots and sampled masks for 8, one symbolic step',
- 'stubs': ['MurmurHash3_x64_128 -> harness model'], 'assumes': ['every pre-state key is found by the table lookup in its slot'],
- 'outside': ['tuple set operations', 'array_tuple_sketch', 'summary types with real move semantics', 'string keys'],
+ 'manifest': {'text': 'Bounded symbolic model checking of one update(key, value) of the real update_tuple_sketch<uint32> with a non-commutative policy from table states of concrete occupancy (symbolic keys, summaries, theta, seed, hash): the retained key set follows the Theta rule, the updated key gets policy(previous summary, value) (create() for a new key), every other key keeps its summary through insert / resize / rebuild moves. Tuple set operations on two compact operands built from parts (symbolic hashes, thetas, summaries; <= 2 entries each): A-not-B, intersection and a unit-level union select keys exactly as the Theta definition and carry the summaries the policy prescribes (3 * first + second in presentation order; A-not-B keeps the summary of A).',
+              'note': 'hash = arbitrary function; tables of 2..8 slots via the private constructor; compact() / filter() of update sketches (no verdict), unions of more than 1 + 1 entries, array-of-doubles and user types with move semantics are outside the claim'},
+ 'functions_encoded': ['update_tuple_sketch::update(uint64_t, U) / update(const void*, size_t, U), begin/end', 'tuple_a_not_b::compute -> theta_set_difference_base<pair>::compute', 'tuple_intersection::update/get_result -> theta_intersection_base<pair>', 'tuple_union::update/get_result -> theta_union_base<pair> (unit-level table)', 'compact_tuple_sketch 5-arg constructor + iterators', 'theta_update_sketch_base<pair<uint64,uint32>, pair_extract_key>::find/insert/resize/rebuild/consolidate_non_empty', 'std::nth_element over pairs', ],
+ 'bounds': 'lg_nom 1..2 (tables 2, 4, 8 slots), every occupancy mask for <= 4 slots and sampled masks for 8, one symbolic step; set operations: 1-2 entries per operand, union 1 + 1 on a 4-slot unit-level table',
+ 'stubs': ['MurmurHash3_x64_128 -> harness model (update-step queries)', 'std::vector<pair<uint64,uint32>>::_M_realloc_insert -> fixed-capacity model (set-operation queries)', 'resize()/rebuild()/vector growth/nth_element in intersection and union set-operation queries -> assert-unreachable cuts discharged by the solver'], 'assumes': ['every pre-state key is found by the table lookup in its slot'],
+ 'outside': ['compact() / filter()', 'set operations with more than 2 entries per operand, update-sketch operands, ordered results', 'array_tuple_sketch', 'summary types with real move semantics', 'string keys'],
 }
 def queries(tier):
     import itertools
@@ -21,14 +21,17 @@ def queries(tier):
                 for m in ms:
                     for rf in ([1, 2] if resize else ([0] if lgc == lgn + 1 else [1])):
                         d = {'LGC': lgc, 'LGN': lgn, 'RF': rf, 'NUM': num, 'MASK': m}
-                        pass
+                        # ALSO_COMPACT (compact() + filter() on the post-state) was tried on 2- and 4-slot tables: symex of std::sort over pairs + filter's growth did not finish in 250 s
                         qs.append(Q(f'tuple_step_lgc{lgc}_lgn{lgn}_rf{rf}_m{m:02x}', 'tuple', 'c13_tuple_step.c', defs=d, tu_defs={'VERIF_STUB_HASH': None},
                                     unwind=(2 << lgn) + 2, unwindset={'^(verif_hash128|hm_key_u64|harness|verif_mem(set|cpy)_.*|verif_new_.*)$': 42},
                                     timeout=(300 if tier == 'quick' else 1500), native_vectors=300, c_defs={'VERIF_NEW_CAPN': 40, 'VERIF_VEC_CAP': (2 << lgn)}, mem_gb=(10 if tier == 'quick' else 28)))
     # tuple set operations on compact operands built from parts (symbolic hashes, thetas, summaries)
-    for (op, na, nb, ao, bo, ro) in [(2, 1, 1, 1, 1, 0), (2, 2, 1, 0, 1, 0), (2, 2, 2, 0, 1, 0), (1, 1, 1, 1, 1, 0), (1, 2, 2, 1, 1, 0), (1, 2, 1, 0, 1, 0), (0, 1, 1, 1, 1, 0), (0, 2, 1, 1, 1, 0), (0, 2, 2, 1, 1, 0)]:
+    for (op, na, nb, ao, bo, ro) in [(2, 1, 1, 1, 1, 0), (2, 2, 1, 0, 1, 0), (2, 2, 2, 0, 1, 0), (1, 1, 1, 1, 1, 0), (1, 2, 2, 1, 1, 0), (1, 2, 1, 0, 1, 0), (0, 1, 1, 1, 1, 0)]:   # unions of 2+1 / 2+2 entries (8-slot table): symex did not finish in 300 s
         cd = {'VERIF_NEW_CAPN': 16, 'VERIF_VEC_CAP': 8}
-        qs.append(Q(f'tuple_setop_op{op}_a{na}{"o" if ao else "u"}_b{nb}{"o" if bo else "u"}_r{ro}', 'tuple_setops', 'c13_setop.c', defs={'OP': op, 'NA': na, 'NB': nb, 'AORD': ao, 'BORD': bo, 'RORD': ro},
+        # union / intersection tables are sized so that <= 4 keys never reach resize() / rebuild() / vector growth / trimming: cut, the solver proves it (as in C02)
+        if op == 1: cd.update({'VERIF_CUT_THETA_RESIZE': None, 'VERIF_CUT_THETA_REBUILD': None, 'VERIF_CUT_VECTOR_REALLOC': None, 'VERIF_NEW_CAPN': 8})
+        if op == 0: cd.update({'VERIF_CUT_THETA_RESIZE': None, 'VERIF_CUT_THETA_REBUILD': None, 'VERIF_CUT_VECTOR_REALLOC': None, 'VERIF_CUT_INTROSELECT': None, 'VERIF_CUT_SHRINK_TO_FIT': None, 'VERIF_NEW_CAPN': 8})
+        qs.append(Q(f'tuple_setop_op{op}_a{na}{"o" if ao else "u"}_b{nb}{"o" if bo else "u"}_r{ro}', 'tuple_setops', 'c13_setop.c', defs={'OP': op, 'NA': na, 'NB': nb, 'AORD': ao, 'BORD': bo, 'RORD': ro, 'ULG': (2 if na + nb <= 2 else 3)},
                     unwind=max(na + nb, 2) + 2, unwindset={'^(verif_new_.*|harness|make|idx|verif_mem(set|cpy|move).*)$': 20, 'update|find|realloc_insert': 10, 'introsort_loop': 2},
                     timeout=(400 if tier == 'quick' else 1500), native_vectors=300, c_defs=cd, mem_gb=(10 if tier == 'quick' else 28)))
     return qs
